@@ -1,7 +1,8 @@
 """C14 - encoding is a pure function of the document.
 
 Explicit-state exploration of the process-state machine on the real code.  Events: new(d), enc(d)
-for d in a pool of 10 documents (plain, coloured, paginated, grouped, grouped-but-non-contiguous
+for d in a pool of 11 documents (plain, coloured, paginated with own margins, table footnote/source on
+every page with an empty closing style, grouped, grouped-but-non-contiguous
 (its encode raises ValueError), multi-section, figure, and three documents that hold the same
 RTFBody / RTFColumnHeader / RTFPage / RTFSubline / RTFFootnote objects and the same DataFrame, with
 equal and with different column counts).  Canonical state = census of rtflite's process-global
@@ -34,7 +35,7 @@ LEVEL_TEXT = ("Every history of construct/encode events up to the stated depth i
               "compared with what fresh interpreters (3 hash seeds) return; the merged BFS extends this to longer histories up to its fixpoint or cap. "
               "Residual global state changes outputs only under particular histories, which is what an exhaustive history search enumerates.")
 LEVEL_NOTE = ("Trusted: the generic census/restore (asserted equal to pristine after every restore; representative histories re-run in fresh interpreters), "
-              "subprocess baselines. Bounds: pool of 10 documents, events {new, enc}, depth as in evidence.")
+              "subprocess baselines. Bounds: pool of 11 documents, events {new, enc}, depth as in evidence.")
 
 EVENTS = [(e, n) for n in HP.POOL_NAMES for e in ("new", "enc")]
 _SNAP = None
@@ -175,15 +176,17 @@ def eval_case(case: dict) -> dict:
     viol: list = []
     mode = case["mode"]
     n = 0
+    nt_hist = 0
     out = {}
     if mode == "unmerged":
         prefix = [tuple(e) for e in case["prefix"]]
 
         def rec(h, d):
-            nonlocal n
+            nonlocal n, nt_hist
             if h:
                 _, obs = run_history(h)
                 n += 1
+                nt_hist += len(h) >= 2
                 check_obs(h, obs, viol, only_last=True)
             if d <= 0:
                 return
@@ -199,6 +202,7 @@ def eval_case(case: dict) -> dict:
             h2 = h + [e]
             s2, obs = run_history(h2)
             n += 1
+            nt_hist += len(h2) >= 2
             check_obs(h2, obs, viol)
             succ.append([list(e), s2])
         out = {"succ": succ, "transitions": n}
@@ -213,7 +217,7 @@ def eval_case(case: dict) -> dict:
         cur = best.get(v["sig"])
         if cur is None or len(v["detail"]) < len(cur["detail"]):
             best[v["sig"]] = v
-    return {"viol": list(best.values()), "nt": n > 1, "evals": n, **out}
+    return {"viol": list(best.values()), "nt_n": nt_hist, "evals": n, **out}
 
 
 # --------------------------------------------------------------------------- parent side
@@ -243,10 +247,10 @@ def plan(run):
     from concurrent.futures import ThreadPoolExecutor
 
     quick = run.tier == "quick"
-    run.rule = ("events {new(d), enc(d)} over a pool of 10 documents; all histories of length <= k unmerged (every encode in every history compared with the "
+    run.rule = ("events {new(d), enc(d)} over a pool of 11 documents; all histories of length <= k unmerged (every encode in every history compared with the "
                 "fresh-interpreter baseline); breadth-first search over canonical states (census + component values + DataFrame fingerprints) with de-duplication; "
                 "representative histories re-executed in fresh interpreters. 'encode twice' is the history enc(d).enc(d). "
-                "non-trivial = work unit with > 1 history; evaluations = histories executed")
+                "non-trivial = distinct histories with >= 2 events; evaluations = histories executed")
     run.assumptions = ["baseline(d) = output of a fresh interpreter constructing and encoding d (three PYTHONHASHSEED values must agree)",
                        "the census sees all process-global rtflite state: module-level and class-level dict/list/set/ContextVar/instances",
                        "a constructed-but-unmodified document without shared components has the same futures as an absent one (merged)"]
@@ -254,7 +258,7 @@ def plan(run):
     os.environ["VERIF_C14_BASE"] = BASEFILE
     seeds = [0, 1, (run.seed % 1000) + 2]
     with ThreadPoolExecutor(6) as ex:
-        futs = [(s, half, ex.submit(fresh_results, half, s)) for s in seeds for half in (HP.POOL_NAMES[:5], HP.POOL_NAMES[5:])]
+        futs = [(s, half, ex.submit(fresh_results, half, s)) for s in seeds for half in (HP.POOL_NAMES[:6], HP.POOL_NAMES[6:])]
         per_seed = {}
         for s, half, f in futs:
             per_seed.setdefault(s, {}).update(f.result())
@@ -307,7 +311,7 @@ def plan(run):
         if not frontier:
             fix = True
     run.states = len(seen) + 1
-    run.transitions = trans
+    run.transitions = trans or run.evaluations  # BFS skipped: the events executed by the unmerged layer
     run.extra["bfs_levels_completed"] = level
     run.extra["bfs_fixpoint_reached"] = fix
     run.extra["bfs_frontier_left"] = len(frontier)
